@@ -260,6 +260,34 @@ macro_rules! drive {
     }};
 }
 
+/// one raw read through `Reader::stream()` with one of the `io::Read` methods; receivers are not
+/// empty beforehand (read_to_end / read_to_string append)
+fn raw_read<R: std::io::Read>(s: &mut R, sel: usize, n: usize) {
+    match sel % 6 {
+        0 | 1 => {
+            let mut tmp = [0u8; 3];
+            let _ = s.read(&mut tmp[..n.min(3)]);
+        }
+        2 => {
+            let mut v = vec![b'x'; 5];
+            let _ = s.read_to_end(&mut v);
+        }
+        3 => {
+            let mut t = String::from("pre");
+            let _ = s.read_to_string(&mut t);
+        }
+        4 => {
+            let mut tmp = [0u8; 2];
+            let _ = s.read_exact(&mut tmp);
+        }
+        _ => {
+            let mut a = [0u8; 1];
+            let mut b = [0u8; 2];
+            let _ = s.read_vectored(&mut [std::io::IoSliceMut::new(&mut a), std::io::IoSliceMut::new(&mut b)]);
+        }
+    }
+}
+
 pub fn check(c: &Case) -> Verdict {
     let data = &c.input.0;
     let len = data.len();
@@ -268,15 +296,17 @@ pub fn check(c: &Case) -> Verdict {
         (false, 0) => {
             let mut r = Reader::from_reader(&data[..]);
             apply_cfg(r.config_mut(), c.cfg);
+            let mut rawk = 0usize;
             drive!(r, h, len, r.read_event(), |_e: &Event| {}, c.skip, n, if n.as_ref().len() % 2 == 1 { r.read_text(n).map(|_| ()) } else { r.read_to_end(n).map(|_| ()) }, c.raw, {
-                let mut tmp = [0u8; 3];
-                let _ = std::io::Read::read(&mut r.stream(), &mut tmp[..1 + (c.piece as usize % 3)]);
+                rawk += 1;
+                raw_read(&mut r.stream(), rawk + c.cfg as usize, 1 + (c.piece as usize % 3));
             });
         }
         (false, 1) => {
             let mut r = Reader::from_reader(ChunkedBufRead::new(data, cuts_for(c)));
             apply_cfg(r.config_mut(), c.cfg);
             let mut buf = Vec::new();
+            let mut rawk = 0usize;
             drive!(
                 r,
                 h,
@@ -294,8 +324,8 @@ pub fn check(c: &Case) -> Verdict {
                 },
                 c.raw,
                 {
-                    let mut tmp = [0u8; 3];
-                    let _ = std::io::Read::read(&mut r.stream(), &mut tmp[..1 + (c.pend as usize % 3)]);
+                    rawk += 1;
+                    raw_read(&mut r.stream(), rawk + c.cfg as usize, 1 + (c.pend as usize % 3));
                 }
             );
         }
